@@ -1897,6 +1897,7 @@ class Stream(AbstractStream):
                 self.mol[other_index] = other_mol[other_index]
             else:
                 CASs = other_chemicals.CASs
+                if isinstance(other_index, int): other_index = [other_index]
                 other_index = [i for i in other_index if other_mol[i] or CASs[i] in chemicals]
                 self.imol[tuple([CASs[i] for i in other_index])] = other_mol[other_index]
             if remove: 
